@@ -46,6 +46,11 @@ type (
 		Triggers [][]Expr
 		Body     Expr
 	}
+	EMethod struct { // pure interface method call: x.M(args)
+		X    Expr
+		Name string
+		Args []Expr
+	}
 	EOld struct {
 		Kind string // "old" (function entry) or "pre" (loop entry)
 		X    Expr
@@ -71,6 +76,7 @@ func (ESlice) exprNode()  {}
 func (EField) exprNode()  {}
 func (EQuant) exprNode()  {}
 func (EOld) exprNode()    {}
+func (EMethod) exprNode() {}
 func (EIte) exprNode()    {}
 func (ERaw) exprNode()    {}
 
@@ -101,6 +107,7 @@ type LetSpec struct {
 	Loop   int
 	Text   string
 	Before bool
+	Type   string // optional declared type: makes the ghost visible (as an unknown value) to callers
 }
 
 type CallSpec struct {
@@ -497,7 +504,25 @@ func (p *parser) parsePostfix() (Expr, error) {
 			if p.peek().k != "id" {
 				return nil, p.errf("expected field name")
 			}
-			x = EField{x, p.adv().s}
+			name := p.adv().s
+			if p.isOp("(") {
+				p.adv()
+				var args []Expr
+				for !p.isOp(")") {
+					a, err := p.parseExpr(0)
+					if err != nil {
+						return nil, err
+					}
+					args = append(args, a)
+					if p.isOp(",") {
+						p.adv()
+					}
+				}
+				p.adv()
+				x = EMethod{x, name, args}
+			} else {
+				x = EField{x, name}
+			}
 		case p.isOp("["):
 			p.adv()
 			var lo, hi Expr
@@ -971,6 +996,8 @@ func (p *parser) parseFuncContract() (*FuncContract, error) {
 				if p.isOp("*") && !(p.toks[p.p+1].k == "id" && !clauseKeywords[p.toks[p.p+1].s] && !itemKeywords[p.toks[p.p+1].s]) && !(p.toks[p.p+1].k == "op" && p.toks[p.p+1].s == "[") {
 					p.adv()
 					fc.ModAll = true
+				} else if p.peek().k == "str" {
+					fc.Modifies = append(fc.Modifies, "type:"+p.adv().s)
 				} else {
 					var sb strings.Builder
 					for p.isOp("[") || p.isOp("]") || p.isOp("*") {
@@ -1078,6 +1105,14 @@ func (p *parser) parseFuncContract() (*FuncContract, error) {
 		case "let":
 			// let NAME = expr @after loop K
 			name := p.adv().s
+			lty := ""
+			if !p.isOp("=") {
+				t, err := p.parseTypeText()
+				if err != nil {
+					return nil, err
+				}
+				lty = t
+			}
 			if err := p.expectOp("="); err != nil {
 				return nil, err
 			}
@@ -1100,7 +1135,7 @@ func (p *parser) parseFuncContract() (*FuncContract, error) {
 			if err != nil {
 				return nil, p.errf("loop ordinal expected")
 			}
-			fc.Lets = append(fc.Lets, &LetSpec{Name: name, E: e, Loop: ord, Text: txt, Before: before})
+			fc.Lets = append(fc.Lets, &LetSpec{Name: name, E: e, Loop: ord, Text: txt, Before: before, Type: lty})
 		case "trusted":
 			if p.peek().k != "str" {
 				return nil, p.errf("trusted needs a reason string")
